@@ -362,6 +362,7 @@ func genC14(g *Gen) {
 		}
 	}
 
-	genC14Widen(g) // harness/c14w.go: mask tables, Getw on any bitmap, split + Join, ToArray(Slice)
-	genC14Fmt(g)   // harness/c14f.go: bitmap.Fmt
+	genC14Widen(g)    // harness/c14w.go: mask tables, Getw on any bitmap, split + Join, ToArray(Slice)
+	genC14Fmt(g)      // harness/c14f.go: bitmap.Fmt
+	genC14Scribble(g) // harness/c14s.go: sessions in which the caller writes into the returned bitmaps
 }
